@@ -208,6 +208,7 @@ func requiresV050(spec *Spec) bool {
 		if len(d.Name) > 0 && '0' <= d.Name[0] && d.Name[0] <= '9' {
 			return true
 		}
+		d := d // take the address of a per-iteration copy (go < 1.22 loop variable semantics)
 		edits = append(edits, &d.ContainerEdits)
 	}
 
@@ -228,6 +229,7 @@ func requiresV040(spec *Spec) bool {
 	var edits []*ContainerEdits
 
 	for _, d := range spec.Devices {
+		d := d // take the address of a per-iteration copy (go < 1.22 loop variable semantics)
 		edits = append(edits, &d.ContainerEdits)
 	}
 
